@@ -38,6 +38,63 @@ def opC07Run (j : Json) : Except String Json := do
   pure (Json.mkObj [("items", jarr (r.1.map jnat)), ("request_tokens", jarr (r.2.map fun q => jstr q.token))])
 
 
-def opsC07 : List (String × (Json → Except String Json)) := [("c07.classify", opC07Classify), ("c07.run", opC07Run)]
+open Model.Paging in
+def obsJson : Obs Nat → Json
+  | .unit => Json.str "unit"
+  | .stop => Json.str "stop"
+  | .bad => Json.str "bad"
+  | .item x => Json.mkObj [("item", jnat x)]
+  | .tok t => Json.mkObj [("tok", jstr t)]
+  | .page p => Json.mkObj [("page", Json.mkObj [("items", jarr (p.items.map jnat)), ("token", jstr p.token)])]
+
+open Model.Paging in
+def opOfJson (j : Json) : Except String Op := do
+  match (← j.getArr?).toList with
+  | [Json.str "pages"] => pure .newPages
+  | [Json.str "iter"] => pure .newIter
+  | [Json.str "attr"] => pure .attr
+  | [Json.str "nextpage", n] => pure (.nextPage (← n.getNat?))
+  | [Json.str "next", n] => pure (.nextItem (← n.getNat?))
+  | _ => throw "bad op"
+
+-- a program over one pager: per op the observation and the number of requests the pager has sent so far
+open Model.Paging in
+def opC07Program (j : Json) : Except String Json := do
+  let pages ← (← getArrL j "pages").mapM fun p => do
+    let items ← (← getArrL p "items").mapM fun x => x.getNat?
+    let tok ← getStrL p "token"
+    pure (⟨items, tok⟩ : Page Nat)
+  let tok0 ← getStrL j "token0"
+  let ops ← (← getArrL j "ops").mapM opOfJson
+  match pages with
+  | [] => throw "no first page"
+  | p0 :: srv =>
+    let rec go (w : World Nat Unit) : List Op → List Json
+      | [] => []
+      | o :: os =>
+        let r := step w o
+        Json.mkObj [("obs", obsJson r.1), ("sent", jnat r.2.sent.length)] :: go r.2 os
+    let w0 := World.init (ρ := Unit) ⟨tok0, ()⟩ p0 srv
+    let final := (exec w0 ops).2
+    pure (Json.mkObj [("steps", jarr (go w0 ops)), ("sent_tokens", jarr (final.sent.map fun q => jstr q.token)),
+                      ("last_token", jstr final.resp.token)])
+
+open Model.Paging in
+def opC07Wrap (j : Json) : Except String Json := do
+  let b (k : String) : Except String Bool := do (← j.getObjVal? k).getBool?
+  let k : MethodKind := ⟨← b "void", ← b "lro", ← b "ext", ← b "cs", ← b "ss"⟩
+  let paged ← b "paged"
+  let w (x : Wrap) : String := match x with
+    | .operation => "operation" | .pager => "pager" | .extOperation => "ext_operation" | .raw => "raw"
+  let o : String := match clientOutput k paged with
+    | .none_ => "none" | .operation => "operation" | .extOperation => "ext_operation" | .pager => "pager" | .message => "message"
+  let a : String := match pagerArgs k with
+    | .nameError => "name_error" | .streamAsResponse => "stream_as_response" | .firstResponse => "first_response"
+  pure (Json.mkObj [("wrap_sync", Json.str (w (wrapOf k paged true))), ("wrap_async", Json.str (w (wrapOf k paged false))),
+                    ("client_output", Json.str o), ("pager_args", Json.str a)])
+
+
+def opsC07 : List (String × (Json → Except String Json)) := [("c07.classify", opC07Classify), ("c07.run", opC07Run),
+  ("c07.program", opC07Program), ("c07.wrap", opC07Wrap)]
 
 end GapicModel.Driver
